@@ -24,6 +24,7 @@ THROWS = [
     ("binascii.Error", [], None),                                            # constructing the exception object
     ("ec.derive_private_key", ["ValueError"], None),                         # probed: 0, negative and out-of-range scalars -> ValueError
     ("binascii.a2b_hex", ["binascii.Error"], None),
+    ("binascii.hexlify", [], None), ("binascii.unhexlify", ["binascii.Error"], None),
     ("binascii.b2a_hex", [], None),
     ("builtins.str.encode", ["UnicodeEncodeError"], None),
     ("builtins.bytes.decode", ["UnicodeDecodeError"], None),
